@@ -460,7 +460,7 @@ package tree
 
 //@ func (*tree.Tree).Rename
 //@   flag noframe
-//@   requires t != nil
+//@   requires t != nil && t.tipIndex != nil
 //@   loop 1
 //@     assigns Node.name
 //@     invariant [index_still_maps_original_names] nodeindex != nil && nodeindex.index != nil && (forall s string :: {has(nodeindex.index, s)} has(nodeindex.index, s) ==> nodeindex.index[s] != nil)
